@@ -205,7 +205,10 @@ def check(run):
             if body != m:
                 ms, os_ = m.split(" "), body.split(" ")
                 k = next((i for i, (x, y) in enumerate(zip(ms, os_)) if x != y), min(len(ms), len(os_)))
-                oracle_fail.append((cfg, l[:3000], f"string builder / pool, op {k}: result and allocator calls {ms[k][:160] if k < len(ms) else 'nothing'} [{sdefs}]", (os_[k] if k < len(os_) else "nothing")[:200]))
+                # a different sequence of allocator calls is a broken correspondence, not by itself a block lost or misused
+                all_mism.append((cfg, (0, l[:3000], f"op {k}: {ms[k][:200] if k < len(ms) else 'nothing'} [{sdefs}]", (os_[k] if k < len(os_) else "nothing")[:200])))
+                if not tail.startswith("0") or "MISUSE" in tail or "UNTERMINATED" in o:
+                    oracle_fail.append((cfg, l[:3000], f"every string node released, through this allocator, NUL-terminated [{sdefs}]", o[-120:]))
             elif not tail.startswith("0") or "MISUSE" in tail or "UNTERMINATED" in o:
                 oracle_fail.append((cfg, l[:3000], f"every string node released, through this allocator, NUL-terminated [{sdefs}]", o[-120:]))
         run.cov["disagreements_checked"] += len(sl)
